@@ -464,6 +464,11 @@ inductive ChanSrc where
   | one            -- `Norm::ONE` (opaque / white)
 deriving Repr, DecidableEq
 
+/-- the channel read exists in a native pixel of `n` channels -/
+def ChanSrc.inRange (n : Nat) : ChanSrc → Bool
+  | .ch k => decide (k < n)
+  | _ => true
+
 /-- `convert_channels` (src/color/mod.rs) with `ch.rs`: the 16-entry table -/
 def chanMap : Channels → Channels → List ChanSrc
   | .gray, .gray => [.ch 0]
